@@ -359,6 +359,9 @@ pub struct ReplayFile {
     /// tries up to this many fresh processes
     #[serde(default)]
     pub attempts: u32,
+    /// the run was found in a worker whose stderr cannot be written (/dev/full); replays use the same
+    #[serde(default)]
+    pub stderr_full: bool,
 }
 
 #[derive(Serialize, Deserialize, Clone, Debug)]
@@ -472,6 +475,7 @@ pub fn parent(scn: &dyn Scenario, tier: Tier, seed: u64) -> i32 {
                     spec: spec.clone(),
                     slice: None,
             attempts: 0,
+            stderr_full: false,
                 };
                 if !crashes_in_fresh_process(&exe, &rf, &path) {
                     continue;
@@ -578,11 +582,13 @@ pub fn parent(scn: &dyn Scenario, tier: Tier, seed: u64) -> i32 {
             spec: f.spec.clone(),
             slice: None,
             attempts: 0,
+            stderr_full: stderr_is_full(f.idx % nw),
         };
         std::fs::write(&path, serde_json::to_string_pretty(&rf).unwrap()).expect("write replay");
         let out = Command::new(&exe)
             .args(["replay", path.to_str().unwrap()])
             .stdin(Stdio::null())
+            .stderr(replay_stderr(rf.stderr_full))
             .output()
             .expect("spawn replay");
         let mut reproduced = out.status.code() == Some(1);
@@ -594,7 +600,7 @@ pub fn parent(scn: &dyn Scenario, tier: Tier, seed: u64) -> i32 {
             rf2.slice = Some(SliceReplay { w: f.idx % nw, nw, upto: f.idx });
             rf2.detail = format!("{} [only after the preceding runs of the same process: the code under test keeps process-wide state]", rf2.detail);
             std::fs::write(&path, serde_json::to_string_pretty(&rf2).unwrap()).expect("write replay");
-            let out2 = Command::new(&exe).args(["replay", path.to_str().unwrap()]).stdin(Stdio::null()).output().expect("spawn replay");
+            let out2 = Command::new(&exe).args(["replay", path.to_str().unwrap()]).stdin(Stdio::null()).stderr(replay_stderr(rf.stderr_full)).output().expect("spawn replay");
             if out2.status.code() == Some(1) && String::from_utf8_lossy(&out2.stdout).contains("same_class=true") {
                 reproduced = true;
             } else {
@@ -607,7 +613,7 @@ pub fn parent(scn: &dyn Scenario, tier: Tier, seed: u64) -> i32 {
             let mut hits = 0;
             const TRIES: u32 = 6;
             for _ in 0..TRIES {
-                let o = Command::new(&exe).args(["replay", path.to_str().unwrap()]).stdin(Stdio::null()).output().expect("spawn replay");
+                let o = Command::new(&exe).args(["replay", path.to_str().unwrap()]).stdin(Stdio::null()).stderr(replay_stderr(rf.stderr_full)).output().expect("spawn replay");
                 if o.status.code() == Some(1) {
                     hits += 1;
                 }
@@ -755,7 +761,7 @@ pub fn spawn_workers_x(exe: &std::path::Path, id: &str, tier: Tier, seed: u64, n
         ])
         .stdin(Stdio::null())
         .stdout(Stdio::piped())
-        .stderr(Stdio::inherit());
+        .stderr(worker_stderr(w));
         if all_digests {
             cmd.env("VERIF_ALL_DIGESTS", "1");
         }
@@ -781,6 +787,30 @@ pub fn spawn_workers_x(exe: &std::path::Path, id: &str, tier: Tier, seed: u64, n
         }
     }
     (outs, harness_errors, died)
+}
+
+/// The standard error stream is part of a process's environment: every second worker runs with a
+/// stderr that cannot be written (`/dev/full`: every write fails with ENOSPC), as under a full disk
+/// behind `2>file`. A library that prints there must not turn that into a panic. (The simulator's own
+/// messages from workers are best-effort.)
+pub fn stderr_is_full(w: u64) -> bool {
+    w % 2 == 1
+}
+pub fn worker_stderr(w: u64) -> Stdio {
+    if stderr_is_full(w) {
+        if let Ok(f) = std::fs::OpenOptions::new().write(true).open("/dev/full") {
+            return Stdio::from(f);
+        }
+    }
+    Stdio::inherit()
+}
+fn replay_stderr(full: bool) -> Stdio {
+    if full {
+        if let Ok(f) = std::fs::OpenOptions::new().write(true).open("/dev/full") {
+            return Stdio::from(f);
+        }
+    }
+    Stdio::null()
 }
 
 /// Re-run the slice of a worker that died, with the run index printed before every run: the last
@@ -984,6 +1014,7 @@ pub fn parent_c18(scn: &dyn Scenario, tier: Tier, seed: u64, bins: &[(String, St
             spec: spec.clone(),
             slice: None,
             attempts: 0,
+            stderr_full: false,
         };
         std::fs::write(&path, serde_json::to_string_pretty(&rf).unwrap()).expect("write replay");
         let per_op = |bin: &str| -> Vec<u64> {
@@ -1055,6 +1086,7 @@ pub fn parent_c18(scn: &dyn Scenario, tier: Tier, seed: u64, bins: &[(String, St
             spec,
             slice: None,
             attempts: 0,
+            stderr_full: false,
         };
         std::fs::write(&path, serde_json::to_string_pretty(&rf).unwrap()).expect("write replay");
         if let Some(text) = known(&kf, id, &rf.class, &rf.key) {
